@@ -916,3 +916,9 @@ m('C08', 'jvec: source field with the absolute frequency (defect F21)', SIMS,
 m('C17', 'from_dict: gridding_opts handed over as stored (defect F22)', SIMS,
   "        gopts = {'gridding_opts': inp.pop('gridding_opts', {})}\n        io._dict_deserialize(gopts)\n        cls_inp['gridding_opts'] = gopts['gridding_opts']\n",
   "        cls_inp['gridding_opts'] = inp.pop('gridding_opts', {})\n", 'C17.K2.accepted')
+m('C14', 'Model._init_parameter: input array kept by reference (defect F23)', MODELS,
+  "        values = np.array(values, dtype=np.float64, order='F')",
+  "        values = np.asfortranarray(values, dtype=np.float64)", 'C14.M3.own')
+n('C14', 'Model._init_parameter: copy through .copy()', MODELS,
+  "        values = np.array(values, dtype=np.float64, order='F')",
+  "        values = np.asfortranarray(values, dtype=np.float64).copy(order='F')")
